@@ -21,7 +21,7 @@ class C03(TreeCheck):
         n = 14 if tier == "quick" else 120
         out = []
         for i in range(n):
-            prog, meta = programs.g_route(rng, wrapped=(i % 3 == 1))
+            prog, meta = programs.g_mass_cancel(rng) if i % 7 == 3 else programs.g_route(rng, wrapped=(i % 3 == 1))
             out.append({"program": prog, "config": {}, "meta": meta})
         return out
 
